@@ -186,8 +186,32 @@ def record_pair(trace_id, base_part, xf_part, two_d):
              "ev": ev}, problems)
 
 
-def validate(traces, spec="TraceRelation"):
-    """run TLC on a batch of traces -> (accepted ids, {id: (event index, prop)})"""
+def validate(traces, spec="TraceRelation", max_bytes=8 << 20):
+    """run TLC on a batch of traces -> (accepted ids, {id: (event index, prop)}, error);
+    a batch whose JSON would not fit TLC's heap is validated in several TLC runs"""
+    sizes = [len(json.dumps(t)) for t in traces]
+    if sum(sizes) > max_bytes and len(traces) > 1:
+        acc, rej, err = set(), {}, None
+        chunk, n = [], 0
+        for t, sz in zip(traces, sizes):
+            if chunk and n + sz > max_bytes:
+                a, r, e = _validate_one(chunk, spec)
+                acc |= a
+                rej.update(r)
+                err = err or e
+                chunk, n = [], 0
+            chunk.append(t)
+            n += sz
+        if chunk:
+            a, r, e = _validate_one(chunk, spec)
+            acc |= a
+            rej.update(r)
+            err = err or e
+        return acc, rej, err
+    return _validate_one(traces, spec)
+
+
+def _validate_one(traces, spec):
     d = tempfile.mkdtemp(prefix="verif.trace.%d." % os.getpid(), dir=SCRATCH_ROOT)
     try:
         for f in os.listdir(TRACE_SPEC_DIR):
